@@ -804,6 +804,9 @@ def expand_includes(lines, root):
         s = ln.strip()
         if s.startswith("//@include "):
             path = s[len("//@include "):].strip()
+            if "{{" in path:          # parametrised path: resolved when the enclosing //@for substitutes it
+                out.append(ln)
+                continue
             with open(root + "/" + path) as f:
                 out.extend(expand_includes(f.read().split("\n"), root))
         else:
@@ -857,7 +860,7 @@ def expand_for(lines, root):
             for tp in tuples:
                 vals = [x.strip() for x in tp.split(";")] if ";" in tp else [x.strip() for x in tp.split(",")]
                 env = dict(zip(names, vals))
-                out.extend(expand_for([subst(b, env) for b in block], root))
+                out.extend(expand_for(expand_includes([subst(b, env) for b in block], root), root))
             i = j + 1
             continue
         out.append(ln)
